@@ -51,16 +51,19 @@ RULE = ('np: strings run through os.path.normpath and the model; plug/e2e: (stat
         'directories whose name extends the root\'s name, and through the model given the tree as fs; '
         'exhaustive part: every string over {a,/,.} up to the tier\'s length (np %s, plug %s, e2e %s; prefixed '
         'with "/" for plug/e2e), random part over name tokens, "/", ".", "..", "...", %%-sequences, "?" and '
-        'the tree\'s own absolute path; distinct by canonical JSON; non-trivial = absolute static dir with at '
-        'least one component, UTF-8 path without NUL, static server enabled, request reaches the web plugin'
-        % (EXH_NP, EXH_PLUG, EXH_E2E))
+        'the tree\'s own absolute path; byte-level part: every byte string over {a,/,.,00,c0,ae,af,80} up to '
+        'length %s (plug) / %s (e2e) after "/", a corpus of traversal-smuggling spellings (overlong c0 ae / c0 af / '
+        'e0 80 af / f0 80 80 af, lone continuation and lead bytes, truncated sequences, surrogates, NUL in every '
+        'position) and random mixes of them; distinct by canonical JSON; non-trivial = absolute static dir '
+        'with at least one component, static server enabled, request reaches the web plugin (ANY bytes as path)'
+        % (EXH_NP, EXH_PLUG, EXH_E2E, {'quick': 3, 'thorough': 5}, {'quick': 2, 'thorough': 4}))
 ASSUMPTIONS = [
     'no symbolic links below or above the static root (fs is keyed by the lexical path given to open())',
     'static_server_dir is absolute and is not the file-system root (theorem guard ProperAbs); relative dirs '
     'and "/" are run for model/code agreement only',
     'no web route is registered (routes take precedence over the static server and are C12\'s subject)',
-    'request paths that are not UTF-8 or contain NUL raise out of on_request_complete (C06\'s subject); '
-    'they are run for model/code agreement and excluded from the oracle',
+    'UTF-8 strictness of bytes.decode is tied to the model decoder (utf8Decode) by correspondence on the '
+    'byte-level cases',
     'gzip.compress / gzip.decompress are inverse (checked on every compressed response run); '
     'mimetypes.guess_type is an input of the model',
     'e2e requests are sent with --disable-http-proxy so that targets that are not origin-form never cause '
@@ -284,7 +287,7 @@ def parse_ok(out):
 
 
 def canon(res):
-    from proxy.http.responses import NOT_FOUND_RESPONSE_PKT
+    from proxy.http.responses import NOT_FOUND_RESPONSE_PKT, BAD_REQUEST_RESPONSE_PKT
     op = _opened_str(res['opened'])
     if res['exc'] is not None:
         e = res['exc']
@@ -292,6 +295,8 @@ def canon(res):
     out = res['out']
     if out == bytes(NOT_FOUND_RESPONSE_PKT):
         return '404 opened=' + op
+    if out == bytes(BAD_REQUEST_RESPONSE_PKT):
+        return '400 opened=' + op
     p = parse_ok(out)
     if p is None:
         return 'other opened=%s %s' % (op, hx(out))
@@ -372,52 +377,78 @@ def lex_resolve(start, path):
     return out
 
 
+def path_text(case):
+    """The text the request path decodes to (`None`/empty path stands for '/'); None = not UTF-8."""
+    pb = path_bytes(case) or b'/'
+    try:
+        return pb.decode('utf-8')
+    except UnicodeDecodeError:
+        return None
+
+
 def in_quantifier(case):
-    if case['kind'] == 'np' or 'pathx' in case or case.get('path') is None:
+    """Every byte string is a request path of the property (NUL and non-UTF-8 bytes included)."""
+    if case['kind'] == 'np':
         return False
     if case.get('en', 1) != 1 or is_virtual(case):
         return False
-    p = case['path'].replace('{B}', base())
-    if '\x00' in p:
-        return False
-    if case['kind'] == 'e2e' and not (p.startswith('/') and not p.startswith('//')):
+    pb = path_bytes(case) or b'/'
+    if case['kind'] == 'e2e' and not (pb.startswith(b'/') and not pb.startswith(b'//')):
         return False
     return len(lex_resolve([], dir_str(case))) > 0
 
 
 def _observe(case):
-    """-> ('404'|'200'|'exc'|'other', decoded body | None, raw-equals-body, opened list)"""
-    from proxy.http.responses import NOT_FOUND_RESPONSE_PKT
+    """-> ('404'|'400'|'200'|'exc'|'other', decoded body | None, opened list)"""
+    from proxy.http.responses import NOT_FOUND_RESPONSE_PKT, BAD_REQUEST_RESPONSE_PKT
     res = run_real(case)
     if res['exc'] is not None:
         return 'exc', None, res['opened']
     if res['out'] == bytes(NOT_FOUND_RESPONSE_PKT):
         return '404', None, res['opened']
+    if res['out'] == bytes(BAD_REQUEST_RESPONSE_PKT):
+        return '400', None, res['opened']
     p = parse_ok(res['out'])
     if p is None or not p[2]:
         return 'other', None, res['opened']
     return '200', p[3], res['opened']
 
 
+def _with_path(case, pb):
+    c = {k: v for k, v in case.items() if k not in ('path', 'pathx')}
+    c['pathx'] = pb.hex()
+    return c
+
+
 def oracle(case):
     if not in_quantifier(case):
         return None
     rootc = lex_resolve([], dir_str(case))
-    full = case['path'].replace('{B}', base())
+    status, body, opened = _observe(case)
+    # whatever the bytes of the path: nothing outside the static dir is handed to the file system
+    for o in opened:
+        oc = lex_resolve([], o)
+        if oc[:len(rootc)] != rootc:       # (the root directory itself is not outside)
+            return 'opened-path-outside-root'
+    full = path_text(case)
+    if full is None:
+        # not text: the path names no file; no content, no file access
+        if status == '200':
+            return 'file-content-served-for-non-utf8-path'
+        if opened:
+            return 'file-opened-for-non-utf8-path'
+        if status not in ('400', '404'):
+            return 'non-utf8-path-not-rejected:' + status
+        return None
     named = full.split('?', 1)[0] if '?' in full else full
     loc = lex_resolve(rootc, named)
     inside = len(loc) > len(rootc) and loc[:len(rootc)] == rootc
     disk = None
     if inside:
         f = '/' + '/'.join(loc)
-        if os.path.isfile(f) and not os.path.islink(f):
+        if '\x00' not in f and os.path.isfile(f) and not os.path.islink(f):
             with _real_open(f, 'rb') as fh:
                 disk = fh.read()
-    status, body, opened = _observe(case)
-    for o in opened:
-        oc = lex_resolve([], o)
-        if oc[:len(rootc)] != rootc:       # (the root directory itself is not outside)
-            return 'opened-path-outside-root'
     if status == '200':
         if not inside:
             return 'file-content-served-for-path-outside-root'
@@ -428,16 +459,17 @@ def oracle(case):
             return 'existing-file-inside-root-not-served'
     else:
         return 'neither-404-nor-file:' + status
-    if not inside and status != '404':
-        return 'outside-root-not-404'
     # the query string never influences which file is chosen
-    if '?' in case['path']:
-        other = dict(case, path=case['path'].split('?', 1)[0])
-        if case['kind'] == 'e2e' and other['path'] == '':
+    pb = path_bytes(case)
+    if not pb:
+        return None
+    if b'?' in pb:
+        q = pb.split(b'?', 1)[0]
+        if q == b'':
             return None
+        other = _with_path(case, q)
     else:
-        k = sum(case['path'].encode('utf-8')) % len(QUERIES)
-        other = dict(case, path=case['path'] + '?' + QUERIES[k])
+        other = _with_path(case, pb + b'?' + QUERIES[sum(pb) % len(QUERIES)].encode())
     s2, b2, _ = _observe(other)
     if (s2, b2) != (status, body):
         return 'query-string-changes-the-answer'
@@ -468,6 +500,65 @@ def _e2e(d, p, mcl=20):
     return c
 
 
+# the classic traversal smuggling bytes: overlong encodings of '.', '/' and NUL, lone continuation and
+# lead bytes, truncated sequences, surrogates, > U+10FFFF, and real NUL bytes
+SMUGGLE = [
+    b'/\xff', b'/a\xc0\xaf', b'\x80', b'/\x80', b'/a\xbf', b'/\xfe\xff', b'/\xc0', b'/\xc3', b'/a/\xe2\x82',
+    b'/\xed\xa0\x80', b'/\xf4\x90\x80\x80', b'/\xf8\x88\x80\x80\x80',
+    b'/\xc0\xae\xc0\xae/secret.txt', b'/\xc0\xae\xc0\xae\xc0\xafsecret.txt', b'/..\xc0\xafsecret.txt',
+    b'/\xc0\xae./secret.txt', b'/.\xc0\xae/secret.txt', b'/..\xc1\x9csecret.txt',
+    b'/\xe0\x80\xae\xe0\x80\xae\xe0\x80\xafsecret.txt', b'/..\xe0\x80\xafsecret.txt', b'/\xe0\x80\xae\xe0\x80\xae/a',
+    b'/\xf0\x80\x80\xae\xf0\x80\x80\xae\xf0\x80\x80\xafsecret.txt', b'/..\xf0\x80\x80\xafa',
+    b'/\xc0\x80', b'/a\xc0\x80.txt', b'/../secret.txt\xc0\x80',
+    b'/a\xc0\xaf..\xc0\xaf..\xc0\xafa', b'/aa/\xc0\xae\xc0\xae/\xc0\xae\xc0\xae/a', b'/\xc0\xae\xc0\xae/aaa/a',
+    b'/a?\xff', b'/a?x=\xc0\xaf../', b'/\xff?/../a',
+    b'/a\x00', b'/\x00', b'/\x00/../a', b'/a\x00/../a', b'/..\x00/secret.txt', b'/../secret.txt\x00',
+    b'/../secret.txt\x00.html', b'/a\x00.txt', b'/index.html\x00/../../a', b'/aa\x00/a', b'/\x00../a',
+    b'/.\x00./secret.txt', b'/a?\x00', b'/\x00?/../a', b'/a\x00\xff', b'/../aaa/a\x00', b'/..\x00',
+    b'/\xc3\xa9.txt', b'/\xef\xbc\x8e\xef\xbc\x8e/secret.txt', b'/..\xe2\x88\x95secret.txt', b'/\xf0\x9f\x98\x80',
+]
+EXH_BYTES = [0x61, 0x2f, 0x2e, 0x00, 0xc0, 0xae, 0xaf, 0x80]
+EXH_BPLUG = {'quick': 3, 'thorough': 5}
+EXH_BE2E = {'quick': 2, 'thorough': 4}
+BYTE_TOKS = [b'a', b'aa', b'aaa', b'.', b'..', b'..', b'..', b'secret.txt', b'index.html', b'a.a', b'',
+             b'\x00', b'\x00', b'a\x00', b'\x00.txt', b'..\x00', b'\x80', b'\xbf', b'\xff', b'\xfe', b'\xc0', b'\xc3', b'\xe2\x82',
+             b'\xc0\xae', b'\xc0\xae\xc0\xae', b'\xc0\xaf', b'..\xc0\xaf..', b'\xc1\x9c', b'\xe0\x80\xae\xe0\x80\xae', b'\xe0\x80\xaf',
+             b'\xf0\x80\x80\xae', b'\xf0\x80\x80\xaf', b'\xc0\x80', b'\xed\xa0\x80', b'\xf4\x90\x80\x80',
+             b'\xc3\xa9.txt', b'\xef\xbc\x8e\xef\xbc\x8e', b'\xe2\x88\x95', b'%c0%af', b'%00']
+BYTE_SEPS = [b'/', b'/', b'/', b'/', b'//', b'\xc0\xaf', b'\xe0\x80\xaf', b'/./', b'/../']
+
+
+def _rand_bytes_path(rng):
+    if rng.random() < 0.3:
+        # a text traversal with some '.', '/' replaced by smuggling spellings, or a NUL inserted
+        p = _rand_path(rng).replace('{B}', '').encode('utf-8')
+        out = bytearray()
+        for c in p:
+            r = rng.random()
+            if c == 0x2e and r < 0.25:
+                out += rng.choice([b'\xc0\xae', b'\xe0\x80\xae', b'\xf0\x80\x80\xae', b'.\x00', b'\xef\xbc\x8e'])
+            elif c == 0x2f and r < 0.2:
+                out += rng.choice([b'\xc0\xaf', b'\xe0\x80\xaf', b'\xc1\x9c', b'/\x00', b'\x00/'])
+            else:
+                out.append(c)
+        if rng.random() < 0.3:
+            k = rng.randrange(len(out) + 1)
+            out[k:k] = rng.choice([b'\x00', b'\xff', b'\x80'])
+        return bytes(out)
+    p = b''
+    for _ in range(rng.randrange(1, 7)):
+        p += rng.choice(BYTE_SEPS) + rng.choice(BYTE_TOKS)
+    if rng.random() < 0.15:
+        p += rng.choice([b'?', b'?\xff', b'?\x00', b'?/../../a'])
+    return p
+
+
+def _byte_strings(maxlen):
+    for n in range(maxlen + 1):
+        for t in itertools.product(EXH_BYTES, repeat=n):
+            yield bytes(t)
+
+
 def corpus():
     base()
     R = '{B}/aa'
@@ -495,10 +586,15 @@ def corpus():
     cs.append(_plug(R, '/../a', en=0))
     cs.append(_plug(R, None))
     cs.append(_plug(R, b''))
-    for bad in (b'/\xff', b'/a\xc0\xaf', b'/\xc0\xae\xc0\xae/secret.txt', b'/\xed\xa0\x80', b'/\xf4\x90\x80\x80',
-                b'/a/\xe2\x82', b'\x80'):
-        cs.append(_plug(R, bad))
-        cs.append(_e2e(R, bad))
+    for bad in SMUGGLE:
+        for d in (R, '{B}/aa/aa', '/{B}/aa'):
+            cs.append(_plug(d, bad))
+            if bad.startswith(b'/') and not bad.startswith(b'//'):
+                cs.append(_e2e(d, bad))
+    cs.append(_plug(R, b'/\xff', en=0))
+    cs.append(_plug(R, b'/a\x00', en=0))
+    cs.append(_plug('..', b'/\xc0\xae\xc0\xae/x'))
+    cs.append(_plug('..', b'/../x\x00'))
     for s in ['', '.', '..', '/', '//', '///', '////a', '//a//b', 'a/./b/../c', '../..', '/../..', '//..', 'a/..',
               'a/../..', './', '../a/..', '/a/b/../../..', 'é/../ü', 'a\x00/..', '...', '/...', 'a//..//b']:
         cs.append({'kind': 'np', 's': s})
@@ -575,16 +671,20 @@ def generate(rng, tier):
             yield _e2e(d, p, mcl)
         else:
             yield _plug(d, p, mcl, en=0 if rng.random() < 0.02 else 1)
-    # outside the quantifier: NUL, invalid UTF-8, missing path
-    for _ in range(300 if big else 40):
-        p = _rand_path(rng).encode('utf-8')
-        k = rng.randrange(len(p) + 1)
-        bad = rng.choice([b'\x00', b'\xff', b'\xc0\xae', b'\xc0\xaf', b'\xed\xa0\x80', b'\xe2\x82', b'\x80'])
-        q = p[:k] + bad + p[k:]
-        if q.startswith(b'/') and b' ' not in q and rng.random() < 0.5:
-            yield _e2e(rng.choice(DIRS_GUARDED), q)
+    # every byte string is a path: NUL and non-UTF-8 bytes, exhaustive small scope ...
+    for q in _byte_strings(EXH_BPLUG[tier]):
+        yield _plug(R, b'/' + q)
+    for q in _byte_strings(EXH_BE2E[tier]):
+        yield _e2e(R, b'/' + q)
+    # ... and random (smuggling spellings of '.', '/', NUL; lone / truncated / out-of-range sequences)
+    for _ in range(8000 if big else 700):
+        r = rng.random()
+        d = rng.choice(DIRS_GUARDED) if r < 0.85 else rng.choice(DIRS_FSROOT) if r < 0.9 else rng.choice(DIRS_RELATIVE)
+        q = _rand_bytes_path(rng)
+        if q.startswith(b'/') and not q.startswith(b'//') and b' ' not in q and rng.random() < 0.5:
+            yield _e2e(d, q)
         else:
-            yield _plug(rng.choice(DIRS_GUARDED), q)
+            yield _plug(d, q, en=0 if rng.random() < 0.02 else 1)
 
 
 def neighbours(case):
@@ -613,6 +713,12 @@ def search(rng):
         d = rng.choice(DIRS_GUARDED)
         p = _rand_path(rng)
         out.append(_e2e(d, p) if (p.startswith('/') and ' ' not in p and rng.random() < 0.5) else _plug(d, p))
+    for q in SMUGGLE:
+        out.append(_plug('{B}/aa', q))
+    for q in _byte_strings(3):
+        out.append(_plug('{B}/aa', b'/' + q))
+    for _ in range(1500):
+        out.append(_plug(rng.choice(DIRS_GUARDED), _rand_bytes_path(rng)))
     return out
 
 
@@ -640,22 +746,31 @@ def shrink(case, still_fails):
 def describe(case):
     if case['kind'] == 'np':
         return ['np']
-    d = case['dir']
     dk = 'relative' if is_virtual(case) else 'fsroot' if not lex_resolve([], dir_str(case)) else 'abs'
     out = [case['kind'] + ' dir=' + dk]
-    p = case.get('path')
-    if p is None:
-        out.append('path=bytes/None')
+    pb = path_bytes(case)
+    if pb is None:
+        out.append('path=None')
         return out
+    if b'\x00' in pb:
+        out.append('has NUL')
+    p = path_text(case)
+    if p is None:
+        out.append('not UTF-8')
+        if any(x in pb for x in (b'\xc0\xae', b'\xc0\xaf', b'\xe0\x80\xae', b'\xe0\x80\xaf', b'\xf0\x80\x80')):
+            out.append('overlong . or /')
+        return out
+    if 'pathx' in case:
+        out.append('byte-level UTF-8')
     if '..' in p:
         out.append('has ..')
     if '?' in p:
         out.append('has ?')
     if '%' in p:
         out.append('has %')
-    if dk == 'abs' and '\x00' not in p:
+    if dk == 'abs':
         rootc = lex_resolve([], dir_str(case))
-        loc = lex_resolve(rootc, p.replace('{B}', base()).split('?', 1)[0])
+        loc = lex_resolve(rootc, p.split('?', 1)[0])
         out.append('resolves ' + ('inside' if len(loc) > len(rootc) and loc[:len(rootc)] == rootc else 'outside'))
     return out
 
